@@ -1,6 +1,21 @@
 import DigModel.Proofs.Rollback
+import DigModel.Proofs.DeferSim
 /-
   C16 — Registration order and verification timing do not matter (verification-timing half).
+
+  * **`C16_defer_changes_nothing`** (whole programs, full strength): for every program run without
+    DeferAcyclicVerification in which no operation reports a cycle, the same program with the option switched on
+    answers *every operation identically* — same verdicts and error chains, same events (which functions ran, in which
+    order, with which arguments, which callbacks fired with which error and runtime), same Info structs.
+    Proof (`Proofs/VSet.lean`, `VSetApi.lean`, `CtxCongr.lean`, `AcycInv.lean`, `DeferSim.lean`): a step-by-step
+    simulation on containers equal up to the `isVerifiedAcyclic` flags.  The resolver commutes with any reassignment
+    of the flags (`comm_engine`, an induction over its six functions) and reads the configuration only through
+    RecoverFromPanics and DryRun (`engine_ctx`); so do parsing, registration, roll-back and Decorate; `Scope.Scope`
+    respects the relation; the only reader of the flags is Invoke's check, and there both runs find the graph acyclic
+    because the eager run keeps *every* scope's graph acyclic at all times (`C16_eager_always_acyclic`, i.e.
+    `EagerInv`: accepted Provides verify what they affect and leave the other scopes' graphs alone, rejected
+    operations are rolled back, a parse only appends fresh value-group nodes nothing depends on, a new scope shows its
+    parent's graph);
 
   * `C16_defer_never_rejects`: with DeferAcyclicVerification the verification loop of Provide never fails; it
     only clears the `isVerifiedAcyclic` flag of every affected scope;
@@ -13,8 +28,8 @@ import DigModel.Proofs.Rollback
   * `C16_flags_only`: the verification loop changes nothing but those flags (`Work` is preserved by it), so the
     deferred and the eager container differ in flags only as long as no check fails.
   The permutation half (any order of an accepted block, scope creation earlier or later) is checked by the
-  metamorphic twins on the real library and by the correspondence; its proof needs the graph-holder
-  consistency invariant (orders = positions) and is not done.
+  metamorphic twins on the real library and by the correspondence; it is not proved (it needs a simulation up to a
+  renaming of node indices through the whole resolver).
 -/
 namespace Dig.C16
 
@@ -62,6 +77,27 @@ theorem C16_invoke_checks (ctx : Ctx) (fn : Fn) (hnf : fn.nonfunc = none) (st : 
   unfold apiInvoke
   simp only [hnf, hpp, shallowCheck, hm, hv, hc, Bool.false_eq_true, if_false]
 
+theorem C16_defer_changes_nothing (p : Program) (hd : p.cfg.deferAcyclic = false)
+    (hnc : ∀ r ∈ (runProgram p).2, ∀ e, r.v = .err e → e.isCycleDetected = false) :
+    (runProgram { p with cfg := { p.cfg with deferAcyclic := true } }).2 = (runProgram p).2 :=
+  defer_changes_nothing p hd hnc
+
+theorem C16_eager_always_acyclic (p : Program) (hd : p.cfg.deferAcyclic = false) (s : Nat)
+    (hs : s < (runProgram p).1.scopes.length) : checkAcyclic (runProgram p).1 s = .acyclic :=
+  (eager_program_acyclic p hd s hs).1
+
+/-- the resolver neither reads nor writes the flags: it commutes with any reassignment of them -/
+theorem C16_resolver_ignores_flags (g : Nat → Bool) (ctx : Ctx) (fuel : Nat) (ps : List Param) (c : Nat) (st : St) :
+    buildList ctx fuel ps c (vset g st) = ((buildList ctx fuel ps c st).1, vset g (buildList ctx fuel ps c st).2) :=
+  (comm_engine g ctx fuel).2.2.2.2.2 ps c st
+
+/-- non-vacuity (a test): a program whose operations all succeed reports no cycle -/
+example (p : Program) (h : ∀ r ∈ (runProgram p).2, r.v = .ok) : ∀ r ∈ (runProgram p).2, ∀ e, r.v = .err e → e.isCycleDetected = false := by
+  intro r hr e he; rw [h r hr] at he; cases he
+
+#print axioms C16_defer_changes_nothing
+#print axioms C16_eager_always_acyclic
+#print axioms C16_resolver_ignores_flags
 #print axioms C16_invoke_checks
 #print axioms C16_defer_never_rejects
 #print axioms C16_eager_step
